@@ -11,7 +11,8 @@ CONSTANTS N = %(n)d
  MaxRetry = %(r)d
  MaxFaults = %(f)d
  FormatBug = %(bug)s
-INVARIANTS InOrderNoDup ByteExact NothingBeforeHandover
+ Stalls = %(stalls)s
+INVARIANTS InOrderNoDup ByteExact NothingBeforeHandover PendingInOrder PendingAfterDelivered
 PROPERTIES %(props)s
 CHECK_DEADLOCK FALSE
 """
@@ -20,6 +21,7 @@ CONSTANTS N = %(n)d
  MaxRetry = %(r)d
  MaxFaults = %(f)d
  FormatBug = FALSE
+ Stalls = FALSE
 INVARIANTS Emit
 CHECK_DEADLOCK FALSE
 """
@@ -40,9 +42,9 @@ def check(ctx):
                         "Kafka (sarama) is exercised at the boundary to the client library (a scripted sarama.AsyncProducer); NSQ, NATS and kafka-segmentio are not exercised: nothing is claimed about them"]
     n = 6
     for r in (0, 1, 2):
-        ctx.tlc_model("Producer", "mc.cfg", files={"mc.cfg": MC_CFG % dict(n=n, r=r, f=2, bug="FALSE", props="BoundedGap Terminates")}, workers=8)
-        ctx.tlc_must_fail("Producer", "tight.cfg", files={"tight.cfg": MC_CFG % dict(n=n, r=r, f=2, bug="FALSE", props="TightGap")}, workers=4)
-    ctx.tlc_must_fail("Producer", "fmt.cfg", files={"fmt.cfg": MC_CFG % dict(n=n, r=1, f=2, bug="TRUE", props="BoundedGap")}, workers=4)
+        ctx.tlc_model("Producer", "mc.cfg", files={"mc.cfg": MC_CFG % dict(n=n, r=r, f=2, bug="FALSE", stalls="TRUE", props="BoundedGap Terminates")}, workers=8)
+        ctx.tlc_must_fail("Producer", "tight.cfg", files={"tight.cfg": MC_CFG % dict(n=n, r=r, f=2, bug="FALSE", stalls="FALSE", props="TightGap")}, workers=4)
+    ctx.tlc_must_fail("Producer", "fmt.cfg", files={"fmt.cfg": MC_CFG % dict(n=n, r=1, f=2, bug="TRUE", stalls="FALSE", props="BoundedGap")}, workers=4)
     rs = ctx.tlc("ProducerMC", "scripts.cfg", files={"scripts.cfg": SCRIPT_CFG % dict(n=n, r=1, f=2)}, want_cases=True, workers=8)
     scripts = sorted({json.dumps(c["script"]) for c in rs.cases})
     scripts = [json.loads(s) for s in scripts]
@@ -59,6 +61,12 @@ def check(ctx):
     for si, s in enumerate(scripts):
         if si % (3 if thorough else 10) == 0:
             cases.append({"id": len(cases), "script": s, "n": n, "maxretry": 1, "proto": "udp", "big": False})
+    # the sink stops reading, the producer runs into full socket buffers in the middle of a multi-kilobyte message, the sink
+    # then resets the connection while staying reachable, or reads on (Producer.tla: SinkStall, SinkRst, SinkResume)
+    for r in (0, 1, 2):
+        for then in ("rst", "resume"):
+            for at in ((1, 3, 5) if thorough else (1 + (r + ctx.seed) % 3,)):
+                cases.append({"id": len(cases), "script": [], "stall": {"at": at, "then": then, "tail": 3}, "n": 0, "maxretry": r, "proto": "tcp", "big": True})
     cin, cout = os.path.join(d, "cases.ndjson"), os.path.join(d, "out.ndjson")
     vlib.write_ndjson(cin, cases)
     rc, log, to = ctx.go_run(drv, "TestVerifProducerScripts", env={"VERIF_CASES": cin, "VERIF_OUT": cout, "VERIF_PAR": 12}, timeout=1500)
@@ -72,7 +80,7 @@ def check(ctx):
     by_retry = {0: [], 1: [], 2: []}
     index = {0: [], 1: [], 2: []}
     for c, r in zip(cases, res):
-        ctx.count([c["script"], c["maxretry"], c["proto"]], nontrivial=bool(c["script"]))
+        ctx.count([c["script"], c.get("stall"), c["maxretry"], c["proto"]], nontrivial=bool(c["script"] or c.get("stall")))
         if r.get("infra"):
             raise vlib.Infra("producer driver could not set up a scenario: " + r["infra"])
         if r.get("hung"):
@@ -87,6 +95,12 @@ def check(ctx):
             if not c["script"] and dl != list(range(1, n + 1)):
                 ctx.violation("UDP sink without faults received %s" % dl, {"case": c, "result": r}, key="udp")
             continue
+        if c.get("stall"):
+            hands = [e["m"] for e in r["events"] if e["ev"] == "hand"]
+            dl = end.get("delivered", [])
+            ctx.extra.setdefault("stall_runs", []).append({"maxretry": c["maxretry"], "stall": c["stall"], "handed": len(hands),
+                                                           "delivered": len(dl), "lost": sorted(set(hands) - set(dl))[:12], "garbage": r.get("garbage", []),
+                                                           "partial_tails": r.get("partial_tails")})
         by_retry[c["maxretry"]].append({"ev": "reset"})
         index[c["maxretry"]].append((c, r))
         for e in r["events"]:
@@ -124,6 +138,7 @@ def check(ctx):
         if r1.get("hung"):
             return r1, False
         rows1 = [{"ev": "reset"}] + [dict({"ev": e["ev"]}, **({"m": e["m"]} if e["ev"] == "hand" else {}), **({"delivered": e.get("delivered", [])} if e["ev"] == "end" else {})) for e in r1["events"]]
+        c["_rerun_rows"] = rows1
         return r1, validate(c["maxretry"], rows1) is None
 
     for r in (0, 1, 2):
@@ -150,7 +165,7 @@ def check(ctx):
             ctx.violation("raw-socket producer (retry limit %d) under fault script %s (reproduced when re-run on its own with 10x pauses): "
                           "handed over messages 1..%d, the sink received %s%s - not a behaviour of Producer.tla (in order, no duplicates, "
                           "unmodified, bounded gap around a failure)"
-                          % (r, c["script"], c["n"], end.get("delivered"), (" garbage lines: %s" % r1b["garbage"]) if r1b.get("garbage") else ""),
+                          % (r, c.get("stall") or c["script"], max([e.get("m", 0) for e in r1b.get("events", [])] + [c["n"]]), end.get("delivered"), (" garbage lines: %s" % r1b["garbage"]) if r1b.get("garbage") else ""),
                           {"case": c, "result": r1b}, key="tcp:" + ("garbage" if r1b.get("garbage") else "order-or-gap"))
             break
     kafka(ctx, thorough)
